@@ -84,8 +84,10 @@ class ScriptNbsRNG(rngmod.ScriptedRNG):
 
 
 # ------------------------------------------------------------------ one real call
-def _stack(mats):
-    return np.stack([np.array(m, dtype=float) for m in mats], axis=2)
+def _stack(mats, dtype="float"):
+    # subject data arrive in whatever type the caller measured them in: counts are often stored as
+    # unsigned or narrow integers, so every job carries a dtype (the values themselves are 0..3)
+    return np.stack([np.array(m, dtype=float) for m in mats], axis=2).astype(dtype)
 
 
 def _call(x, y, thr, k, tail, paired, stream, impl="serial"):
@@ -113,7 +115,9 @@ def _call(x, y, thr, k, tail, paired, stream, impl="serial"):
 
 def exec_job(job):
     n, tail, paired, k = job["n"], job["tail"], job["paired"], job["k"]
-    x, y = _stack(job["x"]), _stack(job["y"])
+    dt = job.get("dtype") or ["float", "float", "uint8", "int16", "int64", "uint16"][
+        (len(str(job["x"])) + job["k"] + int(paired)) % 6]
+    x, y = _stack(job["x"], dt), _stack(job["y"], dt)
     thr = job["tn"] / job["td"]
     rec = dict(fn=FN, n=n, nx=x.shape[2], ny=y.shape[2], x=[encode.mat_int(m) for m in job["x"]],
                y=[encode.mat_int(m) for m in job["y"]], tn=job["tn"], td=job["td"], tail=tail,
